@@ -806,18 +806,21 @@ func (c *Client) readResponseTagged(tag, typ string) (startTLS *startTLSCommand,
 		return nil, fmt.Errorf("in resp-cond-state: expected OK, NO or BAD status condition, but got %v", typ)
 	}
 
-	c.completeCommand(cmd, cmdErr)
-
-	if cmd, ok := cmd.(*startTLSCommand); ok && cmdErr == nil {
-		startTLS = cmd
-	}
-
+	// Invalidate the capabilities before the command is reported as
+	// completed: a command issued right after Wait returns must not be
+	// encoded with the capabilities advertised before this one
 	if cmdErr == nil && code != "CAPABILITY" {
 		switch cmd.(type) {
 		case *startTLSCommand, *loginCommand, *authenticateCommand, *unauthenticateCommand:
 			// These commands invalidate the capabilities
 			c.setCaps(nil)
 		}
+	}
+
+	c.completeCommand(cmd, cmdErr)
+
+	if cmd, ok := cmd.(*startTLSCommand); ok && cmdErr == nil {
+		startTLS = cmd
 	}
 
 	return startTLS, nil
